@@ -24,7 +24,11 @@ InsideKeyperSet(s, n) == \A i \in DOMAIN s : s[i] < n
    the message carries now *)
 (* the keyper set of the eon is the last one announced for it; HolderOf: which key holds an
    index of it (member number, or -1 for the account outside the original membership) *)
-LastAnnounced(c) == c.ann[Len(c.ann)]
+RECURSIVE LastAnnouncedFrom(_, _)
+LastAnnouncedFrom(ann, i) ==
+    IF i = 0 THEN "" ELSE IF ann[i] # "O" THEN ann[i] ELSE LastAnnouncedFrom(ann, i - 1)
+LastAnnounced(c) == LastAnnouncedFrom(c.ann, Len(c.ann))    \* "" = the eon has no keyper set
+KeyperSetKnown(c) == LastAnnounced(c) # ""
 HolderOf(c, idx) == IF LastAnnounced(c) = "S" THEN idx ELSE idx - 1
 SignedBy(c, i) == IF c.sigs[i].b = c.n THEN 0 - 1 ELSE c.sigs[i].b
 Genuine(c, i) ==
@@ -33,6 +37,7 @@ Genuine(c, i) ==
     /\ c.sigs[i].o = c.mut
 
 GenuineThreshold(c) ==
+    /\ KeyperSetKnown(c)          \* no keyper set of the eon: no threshold, no members
     /\ Len(c.signers) = c.t
     /\ StrictlyIncreasing(c.signers)
     /\ InsideKeyperSet(c.signers, c.n)
@@ -45,20 +50,24 @@ NoSignersNoSignatures(c) == c.signers = <<>> /\ c.sigs = <<>>
 Admissible(c) ==
     IF c.f = "service" /\ NoSignersNoSignatures(c) THEN TRUE ELSE GenuineThreshold(c)
 
-(* monitors over one observed verdict o = [r, w] of one target *)
-C06_OnlyIf(c, o)  == o.r = "accept" => Admissible(c)
-C06_If(c, o)      == Admissible(c) => o.r = "accept"
-C06_NoPanic(c, o) == o.r \notin {"panic", "hang"}
+(* monitors over one observed verdict o = [r, w] of target tg.  The converse direction is only
+   demanded of a node that can judge the message at all: it knows the eon's keyper set and (access
+   node) the eon key. *)
+CanJudge(c, tg) == KeyperSetKnown(c) /\ (tg = "access" => c.key # "none")
+C06_OnlyIf(c, o)    == o.r = "accept" => Admissible(c)
+C06_If(c, o, tg)    == (Admissible(c) /\ CanJudge(c, tg)) => o.r = "accept"
+C06_NoPanic(c, o)   == o.r \notin {"panic", "hang"}
 
-Failed(c, o) ==
+Failed(c, o, tg) ==
     (IF C06_OnlyIf(c, o) THEN {} ELSE {"C06_OnlyIf"}) \cup
-    (IF C06_If(c, o) THEN {} ELSE {"C06_If"}) \cup
+    (IF C06_If(c, o, tg) THEN {} ELSE {"C06_If"}) \cup
     (IF C06_NoPanic(c, o) THEN {} ELSE {"C06_NoPanic"})
 
 (* design-level statement checked by TLC on the code-shaped layer: every outcome the
    code-shaped operators allow satisfies the monitors *)
 DesignHolds(c) ==
-    /\ \A o \in Pipeline(c) : Failed(c, o) = {}
-    /\ c.f = "gnosis" => \A o \in AccessValidateMessage(c) : Failed(c, o) = {}
+    /\ \A o \in Pipeline(c) : Failed(c, o, "keyper") = {}
+    /\ KeyperSetKnown(c) => \A o \in ValidateSignatures(c) : Failed(c, o, "fn") = {}
+    /\ c.f = "gnosis" => \A o \in AccessValidateMessage(c) : Failed(c, o, "access") = {}
 
 =============================================================================
